@@ -148,6 +148,38 @@ pub trait TryExtend<W, R, T> {
             r matches Ok(x) ==> x == Ok::<(), ErrV>(()) && final(self).tview() == old(self).tview() + i.rest();
 }
 
+// ------------------------------------------------------------------ n_largest (unit `nlargest`)
+/// the number of words the caller's pre-flight check (`rt.can_allocate(len0 * size_of::<usize>())` in the
+/// natives n_largest / n_smallest) covered
+pub uninterp spec fn preflight_words() -> nat;
+/// R-alloc target: a capacity request must be covered by the pre-flight check
+#[verifier::external_body]
+pub fn vx_with_capacity<X>(capacity: usize) -> (r: Vec<X>)
+    requires capacity <= preflight_words(),
+    ensures r@.len() == 0,
+{ unimplemented!() }
+/// util/try_heap.rs TryHeap (bounded Kani companion: K-sort) as a bag of elements
+pub struct Heap<W, R, T> { pub items: Ghost<Seq<Val<W, R, T>>> }
+impl<W, R, T> Heap<W, R, T> {
+    #[verifier::external_body]
+    pub fn len(&self) -> (r: usize) ensures r == self.items@.len() { unimplemented!() }
+    #[verifier::external_body]
+    pub fn push(&mut self, item: Val<W, R, T>) -> (r: XResult<()>)
+        ensures r matches Ok(Ok(_)) ==> final(self).items@ == old(self).items@.push(item),
+    { unimplemented!() }
+    #[verifier::external_body]
+    pub fn pop(&mut self) -> (r: XResult<Option<Val<W, R, T>>>)
+        ensures r matches Ok(Ok(o)) ==> match o {
+            Some(e) => old(self).items@.len() > 0 && old(self).items@.contains(e) && final(self).items@.len() == old(self).items@.len() - 1,
+            None => old(self).items@.len() == 0 && final(self).items@ == old(self).items@,
+        },
+    { unimplemented!() }
+}
+
+/// std::cmp::min by its documented meaning (`b` only when it is strictly smaller)
+pub assume_specification<X: Ord> [std::cmp::min::<X>] (a: X, b: X) -> (r: X)
+    ensures r == (if vstd::std_specs::cmp::OrdSpec::cmp_spec(&b, &a) == core::cmp::Ordering::Less { b } else { a });
+
 /// the element list of a sequence a copying update produced
 pub open spec fn vals<W, R, T>(s: XSequence<W, R, T>) -> Seq<Val<W, R, T>> {
     match s { XSequence::Empty => Seq::empty(), XSequence::Array(v) => v@, XSequence::Other(_) => arbitrary() }
